@@ -8,6 +8,7 @@ import (
 	"io"
 	"os"
 	"path/filepath"
+	"strings"
 	"testing"
 
 	"verif/harness/h"
@@ -465,11 +466,16 @@ func checkViaPatcher(s PatchSpec) h.Result {
 	if err != nil {
 		return h.Failf("NewPoolBowl: %v", err)
 	}
-	aerr := p.Resume(nil, tp, b)
+	tcont := p.GetTargetContainer()
+	rb := &recBowl{Bowl: b, written: map[int64][]byte{}, oldFile: func(ti int64) []byte {
+		data, _ := os.ReadFile(filepath.Join(dd, filepath.FromSlash(tcont.Files[ti].Path)))
+		return data
+	}}
+	aerr := p.Resume(nil, tp, rb)
 	if aerr == nil {
-		aerr = b.Commit()
+		aerr = rb.Commit()
 	}
-	b.Close()
+	rb.Close()
 	want := s.Pair.New.Expect()
 	nt := false
 	for _, f := range si.Container.Files {
@@ -499,12 +505,95 @@ func checkViaPatcher(s PatchSpec) h.Result {
 	if !damaged && aerr != nil {
 		return h.Result{Fail: fmt.Sprintf("a correct patch over an undamaged old build was rejected by the validating pool: %v", aerr), Classes: cl}
 	}
+	if damaged {
+		// What did the bowl write? The recording bowl knows: the payloads of EntryWriter.Write, or the
+		// (damaged) old file a Transpose copies. If that data has a bad block (first-bad-block model of the first stage), the write or close
+		// completing it had to fail inside the validating pool, (a) the pool bowl had to return that failure
+		// from the call it happened in (Transpose, EntryWriter.Write, EntryWriter.Close), and (b) the
+		// application had to end with an error - otherwise the rejected block goes unnoticed.
+		if len(rb.errs) > 0 && aerr == nil {
+			return h.Result{Fail: fmt.Sprintf("a call into the pool bowl over the validating pool failed (%s) but the application returned nil: the rejected block goes unnoticed", rb.errs[0]), Classes: cl}
+		}
+		if len(rb.errs) == 0 && aerr == nil {
+			for i, f := range si.Container.Files {
+				sg := want[f.Path].Data
+				wr, ok := rb.written[int64(i)]
+				if !ok {
+					continue
+				}
+				for k := 0; k < nblocks(len(wr)); k++ {
+					if k >= nblocks(len(sg)) || !bytes.Equal(blk(wr, k), blk(sg, k)) {
+						last := ""
+						if (k+1)*B > len(wr) {
+							last = " (the final partial block, checked when the writer is closed)"
+						}
+						return h.Result{Fail: fmt.Sprintf("%s: the data written for it (%d bytes) differs from the signed content in block %d%s, so the validating pool must have failed a Write or the Close - yet no call into the pool bowl (Transpose, Write, Close) returned an error", f.Path, len(wr), k, last), Classes: cl}
+					}
+				}
+			}
+		}
+		for _, e := range rb.errs {
+			if strings.HasPrefix(e, "Close") || strings.HasPrefix(e, "Transpose") {
+				cl = append(cl, "bad-block:reported-by-Close-or-Transpose")
+				break
+			}
+		}
+	}
 	if aerr != nil {
 		cl = append(cl, "outcome:rejected")
 	} else {
 		cl = append(cl, "outcome:accepted")
 	}
 	return h.Result{Classes: cl, NonTrivial: nt}
+}
+
+// recBowl records the errors the pool bowl returns to its caller.
+type recBowl struct {
+	bowl.Bowl
+	errs    []string
+	written map[int64][]byte
+	oldFile func(targetIndex int64) []byte
+}
+
+func (b *recBowl) Transpose(t bowl.Transposition) error {
+	b.written[t.SourceIndex] = b.oldFile(t.TargetIndex)
+	err := b.Bowl.Transpose(t)
+	if err != nil {
+		b.errs = append(b.errs, fmt.Sprintf("Transpose of file %d: %v", t.SourceIndex, err))
+	}
+	return err
+}
+
+func (b *recBowl) GetWriter(i int64) (bowl.EntryWriter, error) {
+	w, err := b.Bowl.GetWriter(i)
+	if err != nil {
+		return nil, err
+	}
+	b.written[i] = []byte{}
+	return &recEntryWriter{EntryWriter: w, b: b, i: i}, nil
+}
+
+type recEntryWriter struct {
+	bowl.EntryWriter
+	b *recBowl
+	i int64
+}
+
+func (w *recEntryWriter) Write(p []byte) (int, error) {
+	w.b.written[w.i] = append(w.b.written[w.i], p...)
+	n, err := w.EntryWriter.Write(p)
+	if err != nil {
+		w.b.errs = append(w.b.errs, fmt.Sprintf("Write to file %d: %v", w.i, err))
+	}
+	return n, err
+}
+
+func (w *recEntryWriter) Close() error {
+	err := w.EntryWriter.Close()
+	if err != nil {
+		w.b.errs = append(w.b.errs, fmt.Sprintf("Close of file %d: %v", w.i, err))
+	}
+	return err
 }
 
 func firstDiffB(a, b []byte) int {
